@@ -29,6 +29,67 @@ var c17Faults = []c17Fault{
 	{"not-gzip", false}, {"over-long-line", false}, {"output-path-is-a-directory", false}, {"truncated-gzip", false},
 }
 
+// c17Case: n hosts, host k (0-based) is hit by the fault; k = -1 none, -2 the cluster lookup fails.
+type c17Case struct {
+	n, k  int
+	fault string
+}
+
+// c17Build prepares the fake endpoint's configuration for a case and returns the served
+// payloads (compressed and raw) per host.
+func c17Build(seed int64, ci int, cs c17Case) (atlasfake.Config, [][]byte, [][]byte, []string) {
+	gg := gen.New(seed*1709 + int64(ci))
+	gg.LongMax, gg.MaxDepth = 80, 2
+	var hosts, names []string
+	payload := map[string][]byte{}
+	faults := map[string]atlasfake.Fault{}
+	var gzs, raws [][]byte
+	for i := 0; i < cs.n; i++ {
+		nm := fmt.Sprintf("c17-shard-00-%02d.abcde.mongodb.net", i)
+		hosts = append(hosts, nm+":27017")
+		names = append(names, nm)
+		raw, z := atlasPayload(gg, i, 9, 1)
+		if i == cs.k {
+			switch cs.fault {
+			case "not-gzip":
+				z = []byte(strings.Repeat("this is not gzip, but it is raw log text with a SECRETRAWLINE\n", 20))
+				raw = nil
+			case "over-long-line":
+				raw = []byte(`{"c":"COMMAND","ctx":"x"}` + "\n" + `{"c":"COMMAND","attr":{"x":"` + strings.Repeat("L", 70000) + `"}}` + "\n")
+				z = gz(raw)
+			case "truncated-gzip":
+				z = z[:len(z)/2]
+			}
+		}
+		payload[nm] = z
+		gzs = append(gzs, z)
+		raws = append(raws, raw)
+		if i == cs.k {
+			switch {
+			case strings.HasPrefix(cs.fault, "status-"):
+				var code int
+				fmt.Sscanf(cs.fault, "status-%d", &code)
+				faults[nm] = atlasfake.Fault{Kind: "status", Status: code}
+			case cs.fault == "reset-before-headers":
+				faults[nm] = atlasfake.Fault{Kind: "reset"}
+			case strings.HasPrefix(cs.fault, "cut-"):
+				at := map[string]int{"cut-0": 0, "cut-1": 1, "cut-half": len(z) / 2, "cut-last": len(z) - 1}[cs.fault]
+				faults[nm] = atlasfake.Fault{Kind: "cut", CutAt: at}
+			}
+		}
+	}
+	cfg := atlasfake.Config{Project: fmt.Sprintf("6a%022d", ci), Cluster: fmt.Sprintf("C17x%d", ci), ConnStr: "mongodb://" + strings.Join(hosts, ",") + "/?replicaSet=rs", Payload: payload, Faults: faults, EchoBody: true}
+	switch cs.fault {
+	case "cluster-status-500":
+		cfg.ClusterFault = atlasfake.Fault{Kind: "status", Status: 500}
+	case "cluster-reset":
+		cfg.ClusterFault = atlasfake.Fault{Kind: "reset"}
+	case "cluster-garbage-json":
+		cfg.ConnStr = "not a connection string"
+	}
+	return cfg, gzs, raws, names
+}
+
 func C17() int {
 	s, c, g, ok := setup("C17", "fault_enumeration")
 	if !ok {
@@ -36,10 +97,7 @@ func C17() int {
 	}
 	defer s.Close()
 	g.LongMax, g.MaxDepth = 80, 2
-	type cse struct {
-		n, k  int // k = failing host (0-based); -1 none; -2 cluster lookup fails
-		fault string
-	}
+	type cse = c17Case
 	var cases []cse
 	for n := 1; n <= 4; n++ {
 		cases = append(cases, cse{n, -1, "none"})
@@ -52,52 +110,7 @@ func C17() int {
 	}
 	c.Set("cases", len(cases))
 	build := func(ci int, cs cse) (atlasfake.Config, [][]byte, []string) {
-		gg := gen.New(c.Seed*1709 + int64(ci))
-		gg.LongMax, gg.MaxDepth = 80, 2
-		var hosts, names []string
-		payload := map[string][]byte{}
-		faults := map[string]atlasfake.Fault{}
-		var gzs [][]byte
-		for i := 0; i < cs.n; i++ {
-			nm := fmt.Sprintf("c17-shard-00-%02d.abcde.mongodb.net", i)
-			hosts = append(hosts, nm+":27017")
-			names = append(names, nm)
-			_, z := atlasPayload(gg, i, 9, 1)
-			if i == cs.k {
-				switch cs.fault {
-				case "not-gzip":
-					z = []byte(strings.Repeat("this is not gzip, but it is raw log text with a SECRETRAWLINE\n", 20))
-				case "over-long-line":
-					z = gz([]byte(`{"c":"COMMAND","ctx":"x"}` + "\n" + `{"c":"COMMAND","attr":{"x":"` + strings.Repeat("L", 70000) + `"}}` + "\n"))
-				case "truncated-gzip":
-					z = z[:len(z)/2]
-				}
-			}
-			payload[nm] = z
-			gzs = append(gzs, z)
-			if i == cs.k {
-				switch {
-				case strings.HasPrefix(cs.fault, "status-"):
-					var code int
-					fmt.Sscanf(cs.fault, "status-%d", &code)
-					faults[nm] = atlasfake.Fault{Kind: "status", Status: code}
-				case cs.fault == "reset-before-headers":
-					faults[nm] = atlasfake.Fault{Kind: "reset"}
-				case strings.HasPrefix(cs.fault, "cut-"):
-					at := map[string]int{"cut-0": 0, "cut-1": 1, "cut-half": len(z) / 2, "cut-last": len(z) - 1}[cs.fault]
-					faults[nm] = atlasfake.Fault{Kind: "cut", CutAt: at}
-				}
-			}
-		}
-		cfg := atlasfake.Config{Project: fmt.Sprintf("6a%022d", ci), Cluster: fmt.Sprintf("C17x%d", ci), ConnStr: "mongodb://" + strings.Join(hosts, ",") + "/?replicaSet=rs", Payload: payload, Faults: faults, EchoBody: true}
-		switch cs.fault {
-		case "cluster-status-500":
-			cfg.ClusterFault = atlasfake.Fault{Kind: "status", Status: 500}
-		case "cluster-reset":
-			cfg.ClusterFault = atlasfake.Fault{Kind: "reset"}
-		case "cluster-garbage-json":
-			cfg.ConnStr = "not a connection string"
-		}
+		cfg, gzs, _, names := c17Build(c.Seed, ci, cs)
 		return cfg, gzs, names
 	}
 	isLib := func(f string) bool {
@@ -124,17 +137,19 @@ func C17() int {
 				return
 			}
 			recs, crashed, res, aerr := s.Agent([]sut.AgentCmd{
+				{"op": "tmpdir_spell", "kind": c17TmpSpellings[(ci/2)%len(c17TmpSpellings)]},
 				{"op": "tmpdir_list"},
 				{"op": "atlas_download", "n": 1, "base_url": srv.URL(), "pub": atlasPub, "priv": atlasPriv, "project": cfg.Project, "cluster": cfg.Cluster, "start": 1748000000, "end": 1748604800},
 			}, nil, 3*time.Minute)
 			nreq := len(srv.Log())
 			srv.Close()
-			if aerr != nil || crashed >= 0 || len(recs) != 2 {
+			if aerr != nil || crashed >= 0 || len(recs) != 3 {
 				c.Inconclusive("agent failed: " + short(res.Stderr, 200))
 			} else {
 				c.Count("library_cases", 1)
 				c.Count("requests_logged", nreq)
 				c.Eval("lib|" + label)
+				recs = recs[1:]
 				before, _ := recs[0]["names"].([]any)
 				after, _ := recs[1]["tmp_after_return"].([]any)
 				afterDel, _ := recs[1]["tmp_after_delete"].([]any)
@@ -179,6 +194,9 @@ func C17() int {
 			os.MkdirAll(fmt.Sprintf("%s.%d", outp, cs.k), 0o755)
 		}
 		env := append(atlasEnv(srv, dir), "ATLAS_PUBLIC_KEY="+atlasPub, "ATLAS_PRIVATE_KEY="+atlasPriv)
+		spell := c17TmpSpellings[ci%len(c17TmpSpellings)]
+		env = append(env, "TMPDIR="+c17SpellTmp(dir, spell))
+		c.Count("cli_tmpdir_spelling:"+spell, 1)
 		r := s.CLI(sut.Run{Args: []string{"redact", "--atlasProjectId", cfg.Project, "--atlasClusterName", cfg.Cluster, "-o", outp}, Dir: dir, Env: env, Timeout: 3 * time.Minute})
 		if r.TimedOut {
 			c.Inconclusive("watchdog on an Atlas CLI run")
@@ -188,7 +206,7 @@ func C17() int {
 		c.Count("cli_cases", 1)
 		c.Count("requests_logged", len(srv.Log()))
 		c.Eval("cli|" + label)
-		rp := map[string]any{"kind": "atlas-fault", "level": "cli", "case": label, "exit": r.Exit, "stderr": short(bytes.TrimSpace(r.Stderr), 300), "left_in_tmpdir": left}
+		rp := map[string]any{"kind": "atlas-fault", "level": "cli", "case": label, "tmpdir_spelling": spell, "exit": r.Exit, "stderr": short(bytes.TrimSpace(r.Stderr), 300), "left_in_tmpdir": left}
 		if len(srv.Log()) == 0 {
 			c.Violation("no-request-recorded", label+": the CLI never reached the fake endpoint: "+short(r.Stderr, 200), rp)
 			return
@@ -219,4 +237,26 @@ func C17() int {
 	}
 	c.Assume("the library contract: on success the returned files belong to the caller (DeleteClusterLogs); on error nothing may remain")
 	return c.Finish("exhaustive: host counts 1–4 × failing host k × fault kind {HTTP 401/404/500, reset before headers, body cut after 0 / 1 / half / len−1 bytes, payload that is not gzip, truncated gzip, gzip with an over-long line, <out>.<k> is a directory} plus cluster-lookup failures and the all-succeed case; library level (DownloadClusterLogs through the agent, TMPDIR listing when it returns) and CLI level through the CONNECT proxy (TMPDIR listing after exit, any status)")
+}
+
+// the temporary directory may be spelled in ways that are not in cleaned form (a trailing slash is
+// the macOS default shape); cleanup must not depend on the spelling
+var c17TmpSpellings = []string{"plain", "trailing-slash", "dot-segment", "double-slash", "symlink"}
+
+func c17SpellTmp(dir, kind string) string {
+	tmp := filepath.Join(dir, "tmp")
+	os.MkdirAll(tmp, 0o755)
+	switch kind {
+	case "trailing-slash":
+		return tmp + "/"
+	case "dot-segment":
+		return dir + "/./tmp"
+	case "double-slash":
+		return dir + "//tmp"
+	case "symlink":
+		l := filepath.Join(dir, "tmplink")
+		os.Symlink(tmp, l)
+		return l
+	}
+	return tmp
 }
